@@ -6,6 +6,14 @@ MAC_ASSUMP = 'computational assumption, stated not proved: HMAC unforgeability /
 TECH = 'Coq proof over hand-written Gallina model + differential correspondence (extracted model vs implementation) + direct oracle'
 
 CFG = {
+ 'C01': {
+  'level': 'Theorem apreq_accept_iff: the code-shaped model of APReq.Verify + VerifyAPREQ returns success if and only if the RFC 4120 3.2.3 conjunction holds (keytab key selected by realm/kvno/etype for the service or override principal decrypts the ticket with usage 2; validity window with skew and INVALID flag; address containment / RequireHostAddr; authenticator decrypts under the session key with usage 11 (7 for krbtgt), same client name and realm, timestamp within skew; not in the replay cache), and the reported name, realm and expiry are projections of the decrypted EncTicketPart; a rejected request leaves the replay cache untouched; no panic. Decryption, keytab look-up and replay cache are the models proved for C06/C14/C02. Tie: AP-REQs minted for all six etypes with every single and sampled pairs of 26 catalogue defects under 48 settings combinations; accept/reject and the reported identity are compared with the extracted model, which decrypts the transmitted bytes itself.',
+  'note': 'Partial: the ASN.1 decoding of EncTicketPart and Authenticator (external gofork asn1) is a section variable of the theorems; in the correspondence the harness states what it sealed (sealed-content mode) and the model decides decryption on the real bytes. PAC verification when enabled is C19. Exact-instant boundary behaviour (> vs >= at nanosecond equality) is outside the explored range (bounds are placed 3 s inside / outside each window).',
+  'rule': 'six etypes x {valid under 48 settings (3 skews x RequireHostAddr x ClientAddress x keytab principal override x PAC decoding) x 4 ticket address variants; each of 26 catalogue defects alone under the base settings and under random settings; sampled pairs of defects (all pairs in thorough)}; every accepted request is presented a second time (replay); empty ticket sname.',
+  'trusted': [GO_EXT, PRIMS, 'gofork asn1 decoding of the encrypted parts (external; section variable)', 'the process-wide replay cache singleton is shared by all cases of a run: authenticators are made unique'],
+  'assumptions': ['time.Now() is read several times during one verification: bounds are kept 3 s away from each window edge'],
+  'partial': 'ASN.1 decoding abstracted; PAC in C19',
+ },
  'C02': {
   'level': 'Theorems over every history of presentations, clean-ups and clock advances (no bound on length): an accepted authenticator is rejected as a replay for as long as its timestamp passes the skew check; a replay verdict implies the same (client, client time, service) was accepted before; distinct authenticators are independent; n presentations of one authenticator in any order yield at most one acceptance. Tie to the code: bounded-exhaustive and long random histories on a private cache (verdict and cache size after every operation vs the extracted model), every interleaving of 2-3 concurrent verifications and a clean-up over the build-tag yield points (including one inside IsReplay between look-up and insert), and 16-goroutine free-running stress.',
   'note': 'Partial where the truth lives in the runtime: mutual exclusion of sync.RWMutex and the Go memory model are trusted; the interleaving enumeration and the stress runs are search, not proof. The model flattens client-name -> time -> services maps to a list; client names are the "/"-joined string the code uses as key. One skew value per process is assumed (the clean-up period is fixed by the first caller).',
